@@ -106,3 +106,54 @@ def path_variants(fnode, within=None):
         for st in tagged:
             del st._pv_tag
         del fnode._pv_root
+
+
+class Case:
+    """One path of a callee: conditions and returned term, both in the
+    callee's parameter space, plus the def-use / term objects of that path
+    (to resolve loop-carried variables)."""
+
+    def __init__(self, conds, term, du, T, fnode):
+        self.conds = conds
+        self.term = term
+        self.du = du
+        self.T = T
+        self.fnode = fnode
+
+
+def return_cases(prog, func, phi_vars=True):
+    from .defuse import DefUse, Terms
+    out = []
+    for v in path_variants(func.node):
+        du = DefUse(prog, func, fnode=v.fnode)
+        T = Terms(du, phi_vars=phi_vars)
+        conds = []
+        for test, outcome in v.conds:
+            t = T.of(test)
+            while t[0] == "un" and t[1] == "not":
+                t, outcome = t[2], not outcome
+            conds.append((t, outcome))
+        for _r, t in T.returns():
+            out.append(Case(conds, t, du, T, v.fnode))
+    return out
+
+
+def var_leaves(du, T, t, _seen=None):
+    """Alternatives a term may denote: phi alternatives, and for a
+    loop-carried ('var', name, uids) the terms of its (non-mutation)
+    definitions, recursively."""
+    seen = _seen if _seen is not None else set()
+    if t[0] == "phi":
+        out = []
+        for x in t[1]:
+            out.extend(var_leaves(du, T, x, seen))
+        return out
+    if t[0] == "var":
+        out = []
+        for d in du.defs:
+            if d.name == t[1] and d.uid in t[2] and d.uid not in seen and \
+                    d.kind not in ("mut", "store", "augstore", "delitem"):
+                seen.add(d.uid)
+                out.extend(var_leaves(du, T, T.of_def(d), seen))
+        return out
+    return [t]
